@@ -111,7 +111,11 @@ def _moon(jde):
     return float(lon), float(lat), dist
 
 
-def gen_events(fn, target, seed, n):
+H_SLOPE = 0.005         # days: half-width of the central differences at the ends of the accuracy window
+
+
+def gen_events(fn, target, seed, n, window=None):
+    """n returned events spread over -2000..4000 (window = (j0, j1): EVERY event of that window instead, queried at half-period steps)"""
     from pymeeus.Epoch import Epoch
     from pymeeus.Moon import Moon
     from pymeeus.Sun import Sun
@@ -121,10 +125,21 @@ def gen_events(fn, target, seed, n):
     rng = random.Random("moonev/%s/%s/%s" % (seed, fn, target))
     seen = set()
     j0, j1 = 990557.5 + 60, 3182029.5 - 60
-    while len(seen) < n:
-        q = rng.uniform(j0, j1)
+    if window is not None:
+        qs, q = [], max(j0, window[0])
+        while q <= min(j1, window[1]):
+            qs.append(q)
+            q += PERIOD[fn] / 2.0
+        qs = iter(qs)
+    while len(seen) < n or window is not None:
+        if window is not None:
+            q = next(qs, None)
+            if q is None:
+                break
+        else:
+            q = rng.uniform(j0, j1)
         base = {"k": "ev", "f": name, "site": name, "v": vv, "tg": target, "qf": q, "s": [BAD] * 5, "rep": fx(0),
-                "dl": fx(0), "tgt": 0, "kind": "none"}
+                "dl": fx(0), "tgt": 0, "kind": "none", "sl": fx(0), "sr": fx(0)}
         try:
             r = _call(fn, target, q)
         except Exception as ex:
@@ -148,14 +163,18 @@ def gen_events(fn, target, seed, n):
             yield dict(base, kind="phase", dl=fx(lm - ls), tgt=PHASE_TGT[target], dlf=lm - ls)
         elif fn == "moon_perigee_apogee":
             s = [Moon.geocentric_ecliptical_pos(Epoch(t))[2] for t in ts]
-            yield dict(base, kind="dist", s=[fx(x) for x in s], sf=s)
+            f = lambda t: Moon.geocentric_ecliptical_pos(Epoch(t))[2]
+            sl, sr = f(rj - 0.25 + H_SLOPE) - f(rj - 0.25 - H_SLOPE), f(rj + 0.25 + H_SLOPE) - f(rj + 0.25 - H_SLOPE)
+            yield dict(base, kind="dist", s=[fx(x) for x in s], sf=s, sl=fx(sl), sr=fx(sr), slf=sl, srf=sr)
         elif fn == "moon_passage_nodes":
             dt = 0.02
             s = [float(Moon.geocentric_ecliptical_pos(Epoch(t))[1]) for t in (rj - 2 * dt, rj - dt, rj, rj + dt, rj + 2 * dt)]
             yield dict(base, kind="node", s=[fx(x) for x in s], sf=s)
         else:
             s = [float(Moon.apparent_equatorial_pos(Epoch(t))[1]) for t in ts]
-            yield dict(base, kind="decl", s=[fx(x) for x in s], sf=s)
+            f = lambda t: float(Moon.apparent_equatorial_pos(Epoch(t))[1])
+            sl, sr = f(rj - 0.25 + H_SLOPE) - f(rj - 0.25 - H_SLOPE), f(rj + 0.25 + H_SLOPE) - f(rj + 0.25 - H_SLOPE)
+            yield dict(base, kind="decl", s=[fx(x) for x in s], sf=s, sl=fx(sl), sr=fx(sr), slf=sl, srf=sr)
 
 
 def gen_group(items, seed):
